@@ -434,6 +434,8 @@ def observe(prog):
     tx.ensure(root_name)
     tx.scan_program()
     dyn_tmpl = {}
+    sources = {root_name: prog["source"]}
+    sources.update(prog.get("partials") or {})
 
     gets = {}
     filters = set()
@@ -474,12 +476,14 @@ def observe(prog):
                 if lit is not None and lit != tmpl and lit.rsplit("/", 1)[-1] == tmpl:
                     tmpl = lit
             tx.ensure(tmpl)
-            if (tmpl, pos) not in tx.owner and chain:
+            src = f.get("source")
+            if chain and (sources.get(tmpl) != src or (tmpl, pos) not in tx.owner):
                 # `include 'q' with v`: v is evaluated after the context switched to the included template;
-                # the reference belongs to the including template (the innermost partial node's own template)
+                # the reference belongs to the including template (the innermost partial node's own template).
+                # The token's source text says which template the reference was parsed from.
                 site_tmpl = chain[-1][0]
                 tx.ensure(site_tmpl)
-                if (site_tmpl, pos) in tx.owner:
+                if (site_tmpl, pos) in tx.owner and (src is None or sources.get(site_tmpl, src) == src):
                     tmpl, chain = site_tmpl, chain[:-1]
             if chain and tx.owner.get((tmpl, pos)) == node_key(chain[-1][0], chain[-1][1]):
                 chain = chain[:-1]  # an argument of the partial tag itself, evaluated in the including context
